@@ -34,6 +34,10 @@ func (p plan) String() string {
 			s = append(s, fmt.Sprintf("graceful-stop-after-input-%d", k.AfterInput))
 			continue
 		}
+		if k.FailCommit > 0 {
+			s = append(s, fmt.Sprintf("commit#%d-%s+stop", k.FailCommit, k.FailMode))
+			continue
+		}
 		s = append(s, fmt.Sprintf("%d%s", k.At, t))
 	}
 	return fmt.Sprintf("kill-before-effect=[%s] mode=%s", strings.Join(s, ","), p.Mode)
@@ -86,6 +90,9 @@ func runPlan(cfg *config, script []input, p plan, idx int) (*caseRun, string) {
 		case stEnd:
 			if k.At != 0 {
 				return c, "kill-point-not-reached"
+			}
+			if k.FailCommit > 0 && !inc.commitFailed {
+				return c, "failing-commit-not-reached"
 			}
 			if i < len(p.Kills) {
 				c.cnt["graceful_stops"]++
@@ -180,6 +187,36 @@ func checkRun(c *caseRun, expectedAtStart [][]walItem) []finding {
 				}
 				out = append(out, finding{"wal-content-after-crash:" + d + torn,
 					fmt.Sprintf("incarnation %d: LoadAllEntries yields %d entries, the flushes that had returned before the kill hold %d (%s)", inc.idx, len(got), len(want), d),
+					map[string]any{"want": want, "got": got}})
+			}
+		}
+		// (c2') the flushed log of an uncommitted height survives any stop
+		for _, w := range inc.prunedUncommitted {
+			out = append(out, finding{"wal-pruned-for-uncommitted-height",
+				fmt.Sprintf("incarnation %d: %s", inc.idx, w), map[string]any{"effects": tail(effectKeys(inc.effects), 14)}})
+			break
+		}
+		if inc.idx > 0 && inc.status != stOpenErr && inc.idx-1 < len(c.specAt) {
+			var want, got []string
+			for _, it := range c.specAt[inc.idx-1] {
+				if it.H >= inc.startHeight {
+					want = append(want, it.Key)
+				}
+			}
+			for _, it := range inc.loaded {
+				if it.H >= inc.startHeight {
+					got = append(got, it.Key)
+				}
+			}
+			mirrorOK := inc.idx-1 < len(expectedAtStart) && diffSeq(itemKeys(expectedAtStart[inc.idx-1]), itemKeys(inc.loaded)) == ""
+			if d := diffSeq(want, got); d != "" && mirrorOK {
+				cl := "wal-content-of-uncommitted-height:" + d
+				if d == "missing" {
+					cl = "wal-pruned-for-uncommitted-height"
+				}
+				out = append(out, finding{cl,
+					fmt.Sprintf("incarnation %d restarts at height %d: the log holds %d entries of heights >= %d, %d had been flushed and their commit has not completed (%s)",
+						inc.idx, inc.startHeight, len(got), inc.startHeight, len(want), d),
 					map[string]any{"want": want, "got": got}})
 			}
 		}
@@ -547,6 +584,25 @@ func runCase(t *testing.T, r *lib.Run, idx int) {
 		plans = append(plans, plan{Kills: []kill{{Graceful: true, AfterInput: j}}, Mode: modeSame})
 		plans = append(plans, plan{Kills: []kill{{Graceful: true, AfterInput: j}}, Mode: modeOther, Cont: uint64(1000 + j)})
 	}
+	// the commit listener does not complete (returns false / node shut down while it waits):
+	// Run returns, Close flushes, restart at the height whose commit did not complete
+	nc, ck := 0, []int{}
+	for i, e := range killable {
+		if e.Kind == "commit" {
+			nc++
+			ck = append(ck, i+1)
+		}
+	}
+	for j := 1; j <= nc; j++ {
+		for _, fm := range []string{failFalse, failCancel} {
+			plans = append(plans, plan{Kills: []kill{{FailCommit: j, FailMode: fm}}, Mode: modeSame})
+			plans = append(plans, plan{Kills: []kill{{FailCommit: j, FailMode: fm}}, Mode: modeOther, Cont: uint64(2000 + j)})
+		}
+		// ... and the same when the commit is re-derived during replay after a kill in front of it
+		fm := []string{failFalse, failCancel}[j%2]
+		plans = append(plans, plan{Kills: []kill{{At: ck[j-1]}, {FailCommit: 1, FailMode: fm}}, Mode: modeSame})
+		plans = append(plans, plan{Kills: []kill{{At: ck[j-1]}, {FailCommit: 1, FailMode: fm}}, Mode: modeOther, Cont: uint64(3000 + j)})
+	}
 	// double crashes: second kill inside the recovery run
 	nDouble := 6
 	if !r.Quick() {
@@ -582,7 +638,7 @@ func runCase(t *testing.T, r *lib.Run, idx int) {
 		// determinism of the prefix: the killed first run must have done exactly what the twin did
 		first := c.incs[0]
 		for i, e := range first.effects {
-			if e.Kind == "close" {
+			if e.Kind == "close" || e.Kind == "commit-failed" {
 				break
 			}
 			if i >= len(E) || E[i].Kind != e.Kind || E[i].Key != e.Key {
@@ -607,10 +663,15 @@ func runCase(t *testing.T, r *lib.Run, idx int) {
 		if kk := p.Kills[0].At; kk > 0 {
 			r.Count("crash_points_evaluated", 1)
 			r.Count("crash_before:"+killable[kk-1].Kind, 1)
+		} else if p.Kills[0].FailCommit > 0 {
+			r.Count("failed_commit_stops_evaluated:"+p.Kills[0].FailMode, 1)
 		} else {
 			r.Count("graceful_restarts_evaluated", 1)
 		}
-		if len(p.Kills) > 1 {
+		if len(p.Kills) > 1 && p.Kills[1].FailCommit > 0 {
+			r.Count("failed_commit_during_replay_evaluated", 1)
+		}
+		if len(p.Kills) > 1 && p.Kills[1].At > 0 {
 			r.Count("double_crash_runs", 1)
 			if c.incs[1].replaying {
 				r.Count("second_crash_during_replay", 1)
